@@ -136,11 +136,14 @@ Print Assumptions C01_hc_mid_fresh_state.
 (* the parser itself, for any tables whose entries are indices below the block (prefix and external
    dictionary segment in the index space included): a factorisation, whatever the tables contain *)
 Theorem C01_hc_mid_parser :
-  forall vrd lim prefixIdx dictIdx s0 srcSize maxOut h4 h8,
+  forall vrd lim prefixIdx dictIdx s0 srcSize maxOut lo dsrch h4 h8,
     (forall a, 0 <= vrd a < 256) ->
     0 <= dictIdx /\ dictIdx <= prefixIdx /\ prefixIdx <= s0 /\ s0 + srcSize < M32 -> 0 <= srcSize ->
+    0 <= lo <= dictIdx ->
+    (* the search into an attached dictionary context, if any, only returns verified matches (None without one) *)
+    (forall ip f, s0 <= ip <= HcMid.mi_mflimit s0 srcSize -> dsrch ip = Some f -> HcMidSound.found_ok vrd s0 srcSize lo ip f) ->
     HcMidSound.tab_lt h4 s0 -> HcMidSound.tab_lt h8 s0 ->
-    HcMidSound.RSpec vrd lim dictIdx s0 srcSize (HcMid.mid_compress vrd lim prefixIdx dictIdx s0 srcSize maxOut h4 h8).
+    HcMidSound.RSpec vrd lim s0 srcSize lo (HcMid.mid_compress vrd lim prefixIdx dictIdx s0 srcSize maxOut dsrch h4 h8).
 Proof. intros; apply HcMidSound.mid_compress_sound; assumption. Qed.
 Print Assumptions C01_hc_mid_parser.
 
